@@ -4,7 +4,7 @@ Spec      : spec/Containers.tla - a workspace of containers (PatchedCounts,
             PatchedSumWeights, NormalisedCounts, CorrFunc, SampledData/CorrData)
             and one action per public operation (+, 0 + x, sum, -, * scalar, ==,
             is_compatible, .bins[i|slice], .patches[i|slice], iteration,
-            sample_patch_sum, sample, constructors).  TLC checks the laws of the
+            sample_patch_sum, sample, get_array, constructors).  TLC checks the laws of the
             property on every container of every reachable workspace (sum adds
             counts and needs equal binning/patches, commutativity, scaling leaves
             the estimate unchanged, equality reflexive/structural, selection =
@@ -13,7 +13,9 @@ Spec      : spec/Containers.tla - a workspace of containers (PatchedCounts,
 spec->code: TLC prints every history (<= MaxDepth operations) with the exact
             abstract result of every step; harness/containers.py executes the
             history on real objects and compares result and all older objects
-            (purity) after every step.
+            (purity) after every step.  Scenarios with an empty redshift bin
+            (zero=b) and single-patch containers put NaN into the real data
+            containers: == must stay reflexive / structural / symmetric there.
 deviations: the code as found (A1 MulCountAttr, A2 FancyPatchIndex, A3
             AddPassesClosed, AddDropsMembers, SwNdimChain): TLC must produce a
             counterexample for each; it is replayed on the real code.
@@ -32,7 +34,9 @@ from harness import tlc
 S = C.scenario
 
 C17_OPS = ["Add", "Sub", "AddVar", "SubVar", "RAdd", "Mul", "Eq", "EqVar", "IsCompat", "IsCompatVar", "Bins", "Patches",
-           "IterBins", "IterPatches", "PatchSum", "Sample", "Construct"]
+           "IterBins", "IterPatches", "PatchSum", "Sample", "GetArray", "Construct"]
+REQUIRED_PAIRS = [("GetArray", "Sample"), ("GetArray", "PatchSum"), ("GetArray", "Eq"), ("Sample", "Eq"), ("Sample", "EqVar"),
+                  ("PatchSum", "Eq"), ("Sample", "Bins"), ("Bins", "Sample"), ("Bins", "GetArray"), ("Patches", "GetArray")]
 
 
 def base_scenarios():
@@ -44,12 +48,17 @@ def base_scenarios():
         S("CF", 1, 2, auto=True, mem=("dr", "rr"), seed=1), S("CF", 2, 2, mem=("rd",), seed=3, closed="left"),
         S("CF", 3, 2, mem=("dr", "rd"), seed=1), S("CF", 2, 1, mem=("rr",), seed=2),
         S("SD", 2, 3, seed=1), S("CD", 2, 3, seed=1), S("CD", 1, 1, seed=2), S("CD", 3, 2, seed=3, closed="left"),
+        # an empty redshift bin: NaN value and samples in the real data containers, 0/0 terms in the estimators
+        S("CD", 2, 3, seed=1, zero=2), S("SD", 3, 2, seed=2, zero=1), S("CD", 1, 2, seed=3, zero=1),
+        S("CF", 2, 3, mem=("dr", "rr"), seed=1, zero=2), S("NC", 3, 2, auto=True, seed=1, zero=3), S("SW", 2, 2, seed=1, zero=1),
     ]
 
 
 def deep_scenarios():
     return [S("PC", 2, 3, seed=1), S("SW", 2, 2, auto=True, seed=1), S("NC", 2, 2, seed=2),
-            S("CF", 2, 2, mem=("dr", "rr"), seed=1), S("CD", 2, 2, seed=1)]
+            S("CF", 2, 2, mem=("dr", "rr"), seed=1), S("CD", 2, 2, seed=1),
+            # sampled containers holding NaN: an empty bin (value and samples), a single patch (jackknife samples)
+            S("CF", 2, 2, mem=("dr",), seed=1, zero=2), S("CD", 2, 2, seed=2, zero=2), S("NC", 2, 1, seed=1)]
 
 
 def extra_scenarios(rng, n):
@@ -59,8 +68,10 @@ def extra_scenarios(rng, n):
         mem = ()
         if lv == "CF":
             mem = rng.choice([("dr",), ("rd",), ("rr",), ("dr", "rd"), ("dr", "rr"), ("rd", "rr"), ("dr", "rd", "rr")])
-        out.append(S(lv, rng.choice([1, 2, 3, 4]), rng.choice([1, 2, 3, 4]), auto=rng.random() < 0.4 and lv not in ("SD", "CD"),
-                     mem=mem, seed=rng.randrange(0, 9), closed=rng.choice(["left", "right"])))
+        nb = rng.choice([1, 2, 3, 4])
+        out.append(S(lv, nb, rng.choice([1, 2, 3, 4]), auto=rng.random() < 0.4 and lv not in ("SD", "CD"),
+                     mem=mem, seed=rng.randrange(0, 9), closed=rng.choice(["left", "right"]),
+                     zero=rng.choice([0, 0, 1, nb])))
     return out
 
 
@@ -141,6 +152,8 @@ def run(ctx) -> None:
 
     # B. replay
     total_ops = {}
+    total_pairs: dict = {}
+    eq_on_undefined = 0
     for label in [k for k in results if k.startswith("emit")]:
         res = results[label]
         ctx.add_tlc(f"Containers ideal, {label}: histories for replay", res)
@@ -151,6 +164,9 @@ def run(ctx) -> None:
         rp, inits, steps = replay_batch(ctx, world, res, label, max_nodes=cap, rng=rng)
         for k, n in rp.ops_seen.items():
             total_ops[k] = total_ops.get(k, 0) + n
+        for k, n in rp.pairs_seen.items():
+            total_pairs[k] = total_pairs.get(k, 0) + n
+        eq_on_undefined += rp.eq_on_undefined
         ctx.extra.setdefault("replay", {})[label] = dict(scenarios=len(inits), steps=len(steps), executed=rp.replayed,
                                                           histories=rp.histories, continued_with_model_object=rp.repaired,
                                                           expected_outcomes=rp.judge.by_outcome)
@@ -162,6 +178,11 @@ def run(ctx) -> None:
     for op in C17_OPS:
         ctx.require(total_ops.get(op, 0) > 0, f"operation {op} never replayed on the real code")
     ctx.extra["operations_replayed"] = total_ops
+    for pair in REQUIRED_PAIRS:
+        ctx.require(total_pairs.get(pair, 0) > 0, f"no history with {pair[0]} followed by {pair[1]} was replayed on the real code")
+    ctx.require(eq_on_undefined >= 20, f"== with a prescribed result was executed on only {eq_on_undefined} real containers holding NaN")
+    ctx.extra["eq_executed_on_containers_holding_nan"] = eq_on_undefined
+    ctx.extra["compositions_replayed"] = {f"{a}->{b}": n for (a, b), n in sorted(total_pairs.items())}
 
     # C. deviations: TLC must exhibit each one; the counterexample is replayed on the real code
     dev_report = {}
